@@ -136,7 +136,38 @@ class Translator:
             return self.binop(n.op, self.ev(n.left), self.ev(n.right))
         if isinstance(n, ast.Call):
             return self.call(n)
+        if isinstance(n, ast.Subscript):
+            return self.subscript(self.ev(n.value), n.slice)
         raise Unsupported('expression ' + type(n).__name__)
+
+    def subscript(self, v, sl):
+        """bytes[i] / bytes[a:b] with constant bounds (the byte string has a known length)."""
+        if not isinstance(v, Bytes):
+            raise Unsupported('subscript of a non-bytes value')
+
+        def const(x, default):
+            if x is None:
+                return default
+            c = self.ev(x)
+            if isinstance(c, int) and not isinstance(c, bool):
+                return c
+            raise Unsupported('non-constant subscript')
+        n_ = v.n
+        if isinstance(sl, ast.Slice):
+            if sl.step is not None:
+                raise Unsupported('slice step')
+            lo, hi = const(sl.lower, 0), const(sl.upper, n_)
+            lo = max(0, lo + n_ if lo < 0 else lo)
+            hi = min(n_, hi + n_ if hi < 0 else hi)
+            if hi <= lo:
+                raise Unsupported('empty slice')
+            # byte i (0 = first = most significant) occupies bits 8*(n-1-i)+7 .. 8*(n-1-i)
+            return Bytes(z3.Extract(8 * (n_ - lo) - 1, 8 * (n_ - hi), v.bv), hi - lo)
+        i = const(sl, None)
+        i = i + n_ if i < 0 else i
+        if not 0 <= i < n_:
+            raise Unsupported('index out of range')
+        return IntV(z3.ZeroExt(W - 8, z3.Extract(8 * (n_ - i) - 1, 8 * (n_ - i - 1), v.bv)))
 
     def as_int(self, v):
         if isinstance(v, IntV):
@@ -157,6 +188,12 @@ class Translator:
             return IntV(self.as_int(a) + self.as_int(b))
         if isinstance(op, ast.BitAnd):
             return IntV(self.as_int(a) & self.as_int(b))
+        if isinstance(op, ast.BitXor):
+            return IntV(self.as_int(a) ^ self.as_int(b))
+        if isinstance(op, ast.BitOr):
+            return IntV(self.as_int(a) | self.as_int(b))
+        if isinstance(op, (ast.LShift, ast.RShift)) and isinstance(b, int) and 0 <= b < W:
+            return IntV(self.as_int(a) << b if isinstance(op, ast.LShift) else z3.LShR(self.as_int(a), b))
         if isinstance(op, ast.Mod):
             if isinstance(b, int) and b > 0:
                 return IntV(z3.URem(self.as_int(a), self.as_int(b)))
@@ -179,6 +216,26 @@ class Translator:
                 var = z3.BitVec('rnd%d_%s' % (len(self.enc.random_calls), self.tag), 8 * nb)
                 self.enc.random_calls.append((qual, nb, var))
                 return Bytes(var, nb)
+            if qual == 'secrets.token_urlsafe':
+                if len(args) != 1 or not isinstance(args[0], int) or kwargs or args[0] % 3 != 0:
+                    raise Unsupported('token_urlsafe arguments')
+                nb = args[0]
+                var = z3.BitVec('rnd%d_%s' % (len(self.enc.random_calls), self.tag), 8 * nb)
+                self.enc.random_calls.append((qual, nb, var))
+                c = _b64encode(Bytes(var, nb))
+                c = self._replace(self._replace(c, '+', '-'), '/', '_')
+                return Chars(list(c.cs))
+            if qual == 'int.from_bytes':
+                order = args[1] if len(args) > 1 else kwargs.get('byteorder', 'big')
+                if not args or not isinstance(args[0], Bytes) or order not in ('big', 'little') or args[0].n > 7:
+                    raise Unsupported('int.from_bytes arguments')
+                b_ = args[0]
+                if order == 'little':
+                    bs = [z3.Extract(8 * i + 7, 8 * i, b_.bv) for i in range(b_.n)]
+                    bv = z3.Concat(*bs) if len(bs) > 1 else bs[0]
+                else:
+                    bv = b_.bv
+                return IntV(z3.ZeroExt(W - 8 * b_.n, bv))
             if qual == 'base64.b64encode':
                 if len(args) != 1 or kwargs or not isinstance(args[0], Bytes):
                     raise Unsupported('b64encode arguments')
